@@ -138,7 +138,7 @@ package fox
 //@ extern (*Router).newTree
 //@   ensures result != nil
 
-//@ func New props C13,C19 partial
+//@ func New props C13,C19
 //@   requires forall k int :: {opts[k]} 0 <= k && k < len(opts) ==> opts[k] != nil
 //@   modifies E[middleware], published, pubCount
 //@   ensures failed: result1 != nil ==> result0 == nil
